@@ -462,6 +462,22 @@ def _strip_fd_prefix(op: str) -> str:
     return op.lstrip("0123456789")
 
 
+# Options of the wrapper commands that take a separate argument, and the number of
+# operands a wrapper takes before the command it runs
+WRAPPER_FLAGS_WITH_ARG = {
+    "timeout": frozenset({"-k", "--kill-after", "-s", "--signal"}),
+    "nice": frozenset({"-n", "--adjustment"}),
+    "time": frozenset({"-o", "--output", "-f", "--format"}),
+    "strace": frozenset(
+        {"-a", "-b", "-e", "-E", "-I", "-o", "-O", "-p", "-P", "-s", "-S", "-u", "-U", "-X"}
+    ),
+    "ltrace": frozenset(
+        {"-a", "-A", "-D", "-e", "-l", "-n", "-o", "-p", "-s", "-u", "-w", "-x", "-F"}
+    ),
+}
+WRAPPER_OPERANDS = {"timeout": 1}
+
+
 def _analyze_simple_command(
     words: list[str], config: Config, cwd: Path, *, remote: bool = False
 ) -> Decision:
@@ -500,19 +516,27 @@ def _analyze_simple_command(
         if base == "command" and len(tokens) > 1 and tokens[1] in ("-v", "-V"):
             return Decision("allow", "command -v")
 
-        # Skip numeric arguments and flags until we find the actual command
+        # Skip the wrapper's own options (an option with an argument takes the
+        # next word unless the argument is attached), then its own operands
+        # (timeout DURATION); what follows is the actual command
+        with_arg = WRAPPER_FLAGS_WITH_ARG.get(base, frozenset())
         j = 1
         while j < len(tokens):
             token = tokens[j]
-            if token.isdigit() or token.replace(".", "").isdigit():
-                j += 1
-                continue
-            if token.startswith("-") and token != "--":
-                j += 1
-                continue
             if token == "--":
                 j += 1
+                break
+            if token in with_arg:
+                j += 2
+                continue
+            if token.startswith("-") and len(token) > 1:
+                # short cluster ending in an option with an argument: -vk 5
+                if not token.startswith("--") and "-" + token[-1] in with_arg:
+                    j += 1
+                j += 1
+                continue
             break
+        j += WRAPPER_OPERANDS.get(base, 0)
 
         if j < len(tokens):
             return _analyze_simple_command(tokens[j:], config, cwd, remote=remote)
